@@ -346,7 +346,7 @@ def execute_jobs(jobs):
     if len(jobs) < 8:
         return [_exec(j) for j in jobs]
     ctx = mp.get_context("fork")
-    with ctx.Pool(common.NCPU, initializer=common.freeze_heap) as pool:
+    with common.frozen_heap(), ctx.Pool(common.NCPU) as pool:
         return pool.map(_exec, jobs, chunksize=max(1, len(jobs) // (common.NCPU * 4)))
 
 
